@@ -198,6 +198,10 @@ def main(argv=None):
         solver_secs += r.get('solver_secs', 0)
         for o in r['obligations']:
             if u.bounded:
+                # bounded unrolling: a discharged obligation proves nothing for all iterations (never counted); a refuted one is still
+                # a candidate counterexample and goes through the replay on the real code like any other
+                if o['status'] == 'refuted' and u.level == 'property' and o['kind'] in ('post', 'pre'):
+                    refuted_prop.append((u, o))
                 continue
             n_obl += 1
             if o['status'] == 'discharged':
